@@ -395,6 +395,15 @@ class Publish:
             # we will push a version that is one larger than anything present
             # in the grid, according to the servermap.
             self._new_seqnum = self._servermap.highest_seqnum() + 1
+            # The file keeps the encoding parameters of the version we
+            # replace, as it does when the node has downloaded it first:
+            # until then the node only knows its client's defaults, while
+            # the shares we are about to overwrite are numbered for the
+            # file's N.
+            best = self._servermap.best_recoverable_version()
+            if best:
+                self._node._populate_required_shares(best[5]) # verinfo[5] == k
+                self._node._populate_total_shares(best[6]) # verinfo[6] == N
         else:
             # If we don't have a servermap, that's because we're doing the
             # initial publish
